@@ -22,13 +22,17 @@ func genURLSchema(r *Rng, o *Out) *jsonapi.Schema {
 	n := 1 + r.IntN(3)
 	for i := 0; i < n; i++ {
 		t := jsonapi.Type{Name: names[i]}
+		bare := r.chance(1, 12) // a type without any field
+		if bare {
+			o.stat("schema.fieldless-type")
+		}
 		for _, a := range urlAttrNames {
-			if r.bool() {
+			if !bare && r.bool() {
 				_ = t.AddAttr(jsonapi.Attr{Name: a, Type: 1 + r.IntN(14), Nullable: r.bool()})
 			}
 		}
 		for _, rn := range urlRelNames {
-			if r.chance(1, 2) {
+			if !bare && r.chance(1, 2) {
 				target := names[r.IntN(n)]
 				if r.chance(1, 10) {
 					target = "ghost" // not in the schema: C07 speaks of every schema
@@ -120,7 +124,17 @@ func genQuery(r *Rng, s *jsonapi.Schema, o *Out) []string {
 			ps = append(ps, "sort="+list(sortPool, r.IntN(5)))
 			o.stat("param.sort")
 		case 3:
-			ps = append(ps, "include="+list(incPool, r.IntN(4)))
+			inc := list(incPool, r.IntN(4))
+			if r.chance(1, 3) {
+				// names where one is a string prefix of the other without being a path prefix
+				pair := [][]string{{"many", "manys"}, {"r", "r.x"}, {"many", "many.one", "manys"}, {"a", "a"}}[r.IntN(4)]
+				inc = strings.Join(pair, ",")
+				if r.bool() {
+					inc = list(incPool, 1) + "," + inc
+				}
+				o.stat("param.include-prefix-names")
+			}
+			ps = append(ps, "include="+inc)
 			o.stat("param.include")
 		case 4:
 			ps = append(ps, "page["+[]string{"number", "size", "foo", "", "a%26"}[r.IntN(5)]+"]="+pageVals[r.IntN(len(pageVals))])
@@ -315,7 +329,7 @@ func c08Verdict(u *jsonapi.URL, s *jsonapi.Schema) (string, string) {
 		return "field selection " + selectionOf(u) + " became " + selectionOf(u2), str
 	case strings.Join(u.Params.SortingRules, ",") != strings.Join(u2.Params.SortingRules, ","):
 		return "sorting rules differ", str
-	case u.IsCol && fmt.Sprint(u.Params.Page) != fmt.Sprint(u2.Params.Page):
+	case u.IsCol && !samePage(u.Params.Page, u2.Params.Page):
 		return fmt.Sprintf("page parameters %v became %v", u.Params.Page, u2.Params.Page), str
 	case u.Params.FilterLabel != u2.Params.FilterLabel:
 		return fmt.Sprintf("filter label %q became %q", u.Params.FilterLabel, u2.Params.FilterLabel), str
@@ -429,10 +443,10 @@ func suiteURL(r *Rng, n int, thorough bool, o *Out) {
 		switch {
 		case p:
 			o.stat("res.panic")
-			o.emit(op, "panic", "FAIL:parsing "+raw+" panicked: "+msg)
+			o.emit(op, "panic", "FAIL[C07]:C07 parsing "+raw+" panicked: "+msg)
 			continue
 		case (err != nil) == (u != nil):
-			o.emit(op, "both", "FAIL:neither or both of URL and error")
+			o.emit(op, "both", "FAIL[C07]:C07 neither or both of URL and error")
 			continue
 		case err != nil:
 			o.stat("res.err")
@@ -441,20 +455,20 @@ func suiteURL(r *Rng, n int, thorough bool, o *Out) {
 		}
 		o.stat("res.ok")
 		pu, _ := url.Parse(raw)
-		pv := "ok"
+		var v verdicts
 		if m := c07Verdict(u, s, pu.Query()); m != "" {
-			pv = "FAIL:" + m
+			v.fail("C07", m)
 		}
 		str := ""
-		if pv == "ok" {
+		{
 			var m string
 			m, str = c08Verdict(u, s)
 			if m != "" {
-				pv = "FAIL:C08 " + m
+				v.fail("C08", m)
 			}
 		}
 		// canonical form: permute differently named parameters and list items, add empty items
-		if pv == "ok" && len(ps) > 1 {
+		if !v.failed("C08") && len(ps) > 1 {
 			names := map[string]bool{}
 			distinct := true
 			for _, prm := range ps {
@@ -486,12 +500,12 @@ func suiteURL(r *Rng, n int, thorough bool, o *Out) {
 				var err2 error
 				guard(func() { u2, err2 = jsonapi.NewURLFromRaw(s, raw2) })
 				if err2 != nil || u2 == nil {
-					pv = "FAIL:C08 permuted URL " + raw2 + " is rejected"
+					v.fail("C08", "permuted URL "+raw2+" is rejected")
 				} else {
 					s2 := ""
 					guard(func() { s2 = u2.String() })
 					if s2 != str {
-						pv = "FAIL:C08 " + raw + " and " + raw2 + " have different String(): " + str + " / " + s2
+						v.fail("C08", raw+" and "+raw2+" have different String(): "+str+" / "+s2)
 					}
 				}
 				o.stat("canonical.checked")
@@ -500,7 +514,7 @@ func suiteURL(r *Rng, n int, thorough bool, o *Out) {
 		if str == "" {
 			guard(func() { str = u.String() })
 		}
-		o.emit(op, "ok "+dump+" "+hx(str), pv)
+		o.emit(op, "ok "+dump+" "+hx(str), v.String())
 		// the modelled url.Parse/Query on String()'s grammar against the real one
 		reparse := "none"
 		if pu2, e := url.Parse(str); e == nil {
@@ -521,3 +535,18 @@ func suiteURL(r *Rng, n int, thorough bool, o *Out) {
 }
 
 func init() { suites["url"] = suiteURL }
+
+// samePage: same keys with the same values of the same Go types (a nil and an
+// empty map are the same set of page parameters).
+func samePage(a, b map[string]interface{}) bool {
+	if len(a) != len(b) {
+		return false
+	}
+	for k, v := range a {
+		w, ok := b[k]
+		if !ok || !reflect.DeepEqual(v, w) {
+			return false
+		}
+	}
+	return true
+}
